@@ -135,7 +135,8 @@ func worldC20(w *World) {
 	})
 	w.K.Horizon = 30 * time.Minute
 	w.Sample = map[string]interface{}{"health": healthOn, "interval_s": interval, "threshold": threshold, "start_fails": nStartFail, "up_late": upLate.String(), "periodic": boolString(periodic), "signal": signal, "sig": sig.String(), "grace": grace.String(), "sig_delay": sigDelay.String(), "work_latency": workLat.String()}
-	const eps = 2 * time.Millisecond
+	// tolerance for "exits when ...": the statement fixes the instants, not sub-second details
+	const eps = 300 * time.Millisecond
 	w.OnCheck(func() {
 		var agentExit *sim.ExitRec
 		for i := range w.K.Exits {
@@ -233,9 +234,10 @@ func worldC20(w *World) {
 					after++
 				}
 			}
-			if inflight != nil && inflight.DoneSeq != 0 && inflight.Done > sigAt+eps {
+			const tiny = 2 * time.Millisecond
+			if inflight != nil && inflight.DoneSeq != 0 && inflight.Done > sigAt+tiny {
 				for i := range calls {
-					if calls[i].Seq > inflight.DoneSeq && calls[i].At > inflight.Done+eps {
+					if calls[i].Seq > inflight.DoneSeq && calls[i].At > inflight.Done+tiny {
 						w.Violation("no-new-polls", "signal at %v; the list call in flight returned at %v, yet another list call started at %v", sigAt, inflight.Done, calls[i].At)
 						break
 					}
@@ -246,7 +248,7 @@ func worldC20(w *World) {
 				w.Violation("no-new-polls", "%d list calls started at or after the signal (%v)", after, sigAt)
 			}
 			// a request already at the backend whose response is ready in time is answered in full
-			if workAt >= 0 && workAt < sigAt-eps && workDone >= 0 && workDone < sigAt+grace-time.Second {
+			if workAt >= 0 && workAt < sigAt-tiny && workDone >= 0 && workDone < sigAt+grace-time.Second {
 				ups := fp.Uploads["req1"]
 				ok := false
 				for _, u := range ups {
